@@ -90,10 +90,10 @@ def run(ctx: Ctx):
             cases.append((f"exh:{pi}:{k}", c))
     # one deeper exhaustive family over the session-relevant core of the alphabet
     core = [a for a in alpha if a["op"] in ("rlogin", "rcmd", "rlogoff", "chpw", "tick") or a.get("v") == "stop"]
-    for k, c in enumerate(rig.exhaustive_cases(base_cfg, [login], ctx.scale(3, 5), core)):
+    for k, c in enumerate(rig.exhaustive_cases(base_cfg, [login], ctx.scale(3, 4), core)):
         cases.append((f"exhcore:{k}", c))
     rng = ctx.rng.fork("sess")
-    for k in range(ctx.scale(500, 12000)):
+    for k in range(ctx.scale(500, 3000)):
         cases.append((f"gen:{k}", rig.gen_case(rng, max_ops=ctx.scale(30, 60))))
 
     # implementation side, then ONE driver run for all cases
